@@ -365,6 +365,12 @@ HYGIENE = [
     ('sanity', 'forall i in xs: (exists j in ys: @j > 0)'),
     ('sanity', 'forall i in [0 to @i]: @i > 0'),
     ('sanity', 'forall i in {@i}: @i > 0'),
+    ('sanity', 'forall i in rows[@i]: @i > 0'),
+    ('sanity', 'exists i in m.rows[len(cols) - @i].cols: @i > 0'),
+    ('sanity', 'forall i in [0 to xs[@i]]: @i > 0'),
+    ('ok', 'forall i in rows[@j]: (exists j in xs: @i > @j)') if False else ('ok', 'forall i in rows[x]: @i > 0'),
+    ('sanity', 'forall x in xs: (p and exists x in ys: @x > 0)'),
+    ('sanity', 'forall x in xs: (p and (q or not (exists x in ys: @x > 0)))'),
     ('sanity', 'exists i in xs: (@i > 0 and forall i in ys: @i > 1)'),
     ('sanity', 'exists i in xs: (forall j in ys: (exists i in zs: @i > @j))'),
     ('sanity', 'forall i in xs: (forall j in [0 to @j]: @i > @j)'),
@@ -483,7 +489,7 @@ def describe(tier):
     b = bounds(tier)
     menus = '; '.join(f"<= {m['features']} features with aliases {list(m['names'])} and placements {list(m['placements'])}" for m in b['menus'])
     return {
-        'rule': f"every scope kind x pattern kind x every combination of features ({menus}) from: make a position a 2-wide disjunction; give an event (either alternative of any position) an alias; give an event a reference to an alias or to Z (never bound) placed at top level / in a quantifier body / in a quantifier domain. Each property is built four ways (parser; constructors; but() copies from the all-default property: at once, event by event, and stepwise through intermediate properties; events derived with but() from events that already sit in a checked property and have been queried, in both directions) and the accept / sanity-error outcome compared with an independent scoping function. Plus 13 quantifier-hygiene predicates x 3 positions and 10 duplicate-channel disjunctions x 5 positions x both nestings. A state = one property; a transition = one construction.",
+        'rule': f"every scope kind x pattern kind x every combination of features ({menus}) from: make a position a 2-wide disjunction; give an event (either alternative of any position) an alias; give an event a reference to an alias or to Z (never bound) placed at top level / in a quantifier body / in a quantifier domain. Each property is built four ways (parser; constructors; but() copies from the all-default property: at once, event by event, and stepwise through intermediate properties; events derived with but() from events that already sit in a checked property and have been queried, in both directions) and the accept / sanity-error outcome compared with an independent scoping function. Plus 20 quantifier-hygiene predicates x 3 positions and 10 duplicate-channel disjunctions x 5 positions x both nestings. A state = one property; a transition = one construction.",
         'bounds': {'menus': [[m['features'], len(m['names']), len(m['placements'])] for m in b['menus']]},
         'exhaustive': True,
         'assumptions': ['the same alias on two alternatives of one disjunction is parallel binding, not re-binding; an alias bound on some alternatives counts as bound for later events (C02 wording)'],
